@@ -5,6 +5,7 @@ C17 driver.  Case lines (shared with harness/c17/c17.c):
                ureloc size=.. f=<13 offsets>                                        real locate_out / locate_in
                upatch pad=.. sp=<addresses> sw=<idx:addr,..>;<..>                   real patch_in
                utimes <binary mtime> <file mtime|none> <path>                       real check_times
+               uqsort sz=<4|8|10> m=<domain> v=<values> c=<m*m of - 0 +>            real quickSort (lib/misc/qsort.c)
   system style clean <dir> | file <path> <hex> | mtime <path> <t> | now <t> | intern <hex>.. |
                prog <name.c> save=<0|1> inc=<a,b|-> inh=<a.c,b.c|->  (what a compile of the program records) |
                restart <family>.. | calls <fn[:arg..]>.. | reload <top> <family>..
@@ -19,6 +20,7 @@ dump).  Dumps of fresh compiles are inputs (the compiler is not modelled) and ar
 import NV.Common.Proto
 import NV.C17.Model
 import NV.C17.Spec
+import NV.C17.BinFile
 
 namespace NV.C17
 
@@ -39,7 +41,7 @@ def runUsort (ts : List String) : List String :=
               numCompressed := (kv ts "nc").toNat?.getD 0, numDeleted := (kv ts "nd").toNat?.getD 0,
               index := csvNat (kv ts "ix") },
       typeStart := if tsl.isEmpty then none else some tsl }
-  match sortFunctionTable cfLe p with
+  match sortFunctionTable cfLt p with
   | none => ["crash sanitizer"]
   | some o =>
     [s!"ft {showCsv (o.table.map (·.tag))}", s!"of {showCsv (o.offs.map toString)}",
@@ -84,6 +86,19 @@ def runUpatch (ts : List String) : List String :=
         some s!"sw {k} {showCsv (es.map (fun e => s!"{idxOf e.key}:{e.addr}"))}")
   if outs.all Option.isSome then outs.filterMap id else ["crash sanitizer"]
 
+/-- `uqsort`: the model of qsort.c on elements (value, original position) with the comparison table of the case -/
+def runUqsort (ts : List String) : List String :=
+  let v := csvNat (kv ts "v")
+  let m := (kv ts "m").toNat?.getD 1
+  let sz := (kv ts "sz").toNat?.getD 4
+  let c := (kv ts "c").toList
+  let lt (x y : Nat × Nat) : Bool := c.getD (x.1 * m + y.1) '0' == '-'
+  let els : List (Nat × Nat) := (List.range v.length).map (fun i => (v.getD i 0, i))
+  match quickSortL lt els with
+  | none => ["crash sanitizer"]
+  | some out =>
+    [s!"qs {showCsv (out.map (fun e => if sz > 4 then s!"{e.1}:{e.2}" else toString e.1))}"]
+
 def runUtimes (ts : List String) : List String :=
   match ts with
   | [b, f, p] =>
@@ -96,6 +111,8 @@ def runUtimes (ts : List String) : List String :=
 structure MState where
   sys : Sys := {}
   blocks : List (List String) := []          -- the implementation's reload blocks still to come
+  binLines : List String := []               -- the implementation's `bin <obj> <hex>` lines still to come
+  noBin : Bool := false                      -- inside a reference compile (`reloadf`)
   fresh : List (String × List (List String)) := []    -- tag ↦ D lines (tokens after "D tag") of the last fresh compile
   freshR : List (String × List String) := []
   rno : Nat := 0
@@ -115,6 +132,7 @@ def showDecision : Decision → String
 def showEv : Ev → Option String
   | .lb n d => some s!"lb {n} {showDecision d}"
   | .sv n t inc => some s!"sv {n} {t} inc={showCsv inc}"
+  | .svSkipped n => some s!"sv {n} notwritten"
   | .loadfail _ => none
 
 def splitBlocks (trace : List String) : List (List String) :=
@@ -141,7 +159,7 @@ def predictDump (f b : List (List String)) : Option (List (List String)) := do
     (((bd.cfs.find? (fun (c : CfLine) => c.name == name)).map (fun (c : CfLine) => c.rank)).getD 0).toNat
   let hasTs := ((fd.kind "hdr").headD []).contains "ts=1"
   let fcf := fd.cfs
-  let table : List CF := fcf.map (fun c => ⟨newRank c.name, c.name.startsWith "#", c.name⟩)
+  let table : List CF := fcf.map (fun c => ⟨newRank c.name, c.name.startsWith (String.singleton Gen.C17.lastNameChar), c.name⟩)
   -- payload of the parallel array: "<ts> <args>" are the last two tokens of rest
   let tsOf (c : CfLine) : String := " ".intercalate ((c.rest.splitOn " ").drop 3)
   let headOf (c : CfLine) : String := " ".intercalate ((c.rest.splitOn " ").take 3)
@@ -154,7 +172,7 @@ def predictDump (f b : List (List String)) : Option (List (List String)) := do
   let p : FunTabs CF String :=
     { table := table, flags := csvNat (((fd.kind "fl").headD []).headD "-"), offs := offs, ct := ct,
       typeStart := if hasTs then some (fcf.map tsOf) else none }
-  let o ← sortFunctionTable cfLe p
+  let o ← sortFunctionTable cfLt p
   let tsNew : List String := match o.typeStart with
     | some l => l
     | none => fcf.map tsOf       -- no type_start array: "-1 -" for every function, order irrelevant
@@ -212,9 +230,13 @@ def sysLine (m : MState) (line : String) : MState :=
     | some _, some t =>
       { m with sys := { m.sys with w := { m.sys.w with files := (q, t) :: m.sys.w.files.filter (·.1 != q) } } }
     | _, _ => m.emit s!"mtime-error {p}"
-  | ["now", t] => { m with sys := { m.sys with vnow := t.toNat?.getD m.sys.vnow } }
+  | ["now", t] =>
+    -- the clock of the files the driver writes, and `current_time` (which never moves backwards)
+    let v := t.toNat?.getD m.sys.vnow
+    { m with sys := { m.sys with vnow := v, ctime := max m.sys.ctime v } }
   | "prog" :: name :: rest =>
-    let d : ProgDecl := { name := name, save := kv rest "save" == "1", includes := csv (kv rest "inc"),
+    let d : ProgDecl := { name := name, save := kv rest "save" == "1", refuse := kv rest "refuse" == "1",
+                          includes := csv (kv rest "inc"),
                           inherits := csv (kv rest "inh") }
     { m with sys := { m.sys with decls := d :: m.sys.decls.filter (·.name != name) } }
   | "restart" :: fam =>
@@ -223,6 +245,19 @@ def sysLine (m : MState) (line : String) : MState :=
     let w := sampleConfigId w "/simul_efun.c"
     ({ m with sys := { m.sys with w := w } }).emit s!"restarted {w.configId}"
   | "expect" :: _ => m
+  | "incsearch" :: _ => m
+  | ["bindump", obj] =>
+    -- the bytes of the saved binary are data (what the compiler produced is not modelled); the model reads them with its
+    -- own decoder and states what the file holds
+    let mine := m.binLines.takeWhile (fun l => l.startsWith s!"bin {obj} ")
+    let m := { m with binLines := m.binLines.drop mine.length }
+    if mine.isEmpty then
+      let has := (m.sys.w.bins.lookup (binPath m.sys.w (obj ++ ".c"))).isSome && m.sys.w.loaded.contains obj
+      m.emit (if has then s!"bindump-file-missing {obj}" else s!"bindump {obj} unavailable")
+    else
+      let m := mine.foldl MState.emit m
+      let hex := String.join (mine.map (fun l => ((toks l).getD 2 "")))
+      m.emit (binSummary obj (unhexBytes hex))
   | ["badload", name] =>
     ((m.emit s!"lb {name}.c stale").emit s!"err *Error in loading object '/{name}':").emit s!"badload {name} failed"
   | ["foreign", name, what] =>
@@ -254,14 +289,16 @@ def sysLine (m : MState) (line : String) : MState :=
     | none => m.emit s!"corrupt-nofile {name}"
   | "reload" :: top :: fam =>
     if !m.cleaned then m.emit "badcase reload-before-clean" else
-    let fam := top :: fam
+    -- the programs named after a `|` stay loaded as they are (they are only dumped)
+    let kept := (fam.dropWhile (· != "|")).drop 1
+    let fam := top :: fam.takeWhile (· != "|")
     let rno := m.rno + 1
     let blk := m.blocks.headD []
     let m := { m with rno := rno, blocks := m.blocks.drop 1 }
     let m := m.emit s!"begin {rno}"
     let w := m.sys.w
     let sys0 := { m.sys with w := { w with loaded := w.loaded.filter (fun o => !(fam.contains o)) }, evs := [] }
-    let (sys1, ok) := loadObject sys0 (top ++ ".c") 64
+    let (sys1, ok) := loadObject sys0 (top ++ ".c") (!m.noBin) 64
     let evs := sys1.evs.reverse
     let m := (evs.filterMap showEv).foldl MState.emit m
     let m := { m with reasons := m.reasons ++ evs.filterMap (fun e => match e with
@@ -269,11 +306,12 @@ def sysLine (m : MState) (line : String) : MState :=
       | .lb _ (.needs _) => some "needs-inherit"
       | .lb _ (.stale why) => some s!"stale:{why}"
       | .sv _ _ _ => some "save"
+      | .svSkipped _ => some "save-skipped:outdated-parent"
       | _ => none) }
     let m := if ok then m else m.emit s!"loadfail {top}"
     let usedBin (tag : String) : Bool := evs.any (fun e => e == Ev.lb (tag ++ ".c") .use)
     -- dumps, in the order of the family list (duplicates of top removed)
-    let fam' := fam.eraseDups
+    let fam' := (fam ++ kept).eraseDups
     let m := fam'.foldl (fun m tag =>
       if !(sys1.w.loaded.contains tag) then m
       else
@@ -291,7 +329,7 @@ def sysLine (m : MState) (line : String) : MState :=
     let rl := blk.filter (·.startsWith "R ")
     let m :=
       if !ok then m
-      else if fam'.all (fun tag => !(sys1.w.loaded.contains tag) || usedBin tag) then
+      else if fam.eraseDups.all (fun tag => !(sys1.w.loaded.contains tag) || usedBin tag) then
         -- nothing was compiled: every call answers as after the last compile
         ((m.freshR.lookup top).getD ["model-no-fresh-calls"]).foldl MState.emit m
       else
@@ -302,26 +340,36 @@ def sysLine (m : MState) (line : String) : MState :=
   | "usort" :: rest => (runUsort rest).foldl MState.emit m
   | "ureloc" :: rest => (runUreloc rest).foldl MState.emit m
   | "upatch" :: rest => (runUpatch rest).foldl MState.emit m
+  | "uqsort" :: rest => (runUqsort rest).foldl MState.emit m
   | "utimes" :: rest => (runUtimes rest).foldl MState.emit m
   | _ => if line.startsWith "#" then m else m.emit s!"badcmd {line}"
 
 def runModel (body : List String) : List String :=
   let (caseLines, trace) := splitJudge body
-  let m0 : MState := { blocks := splitBlocks trace,
+  let m0 : MState := { blocks := splitBlocks trace, binLines := trace.filter (·.startsWith "bin "),
                        sys := { w := { files := [("simul_efun.c", 2000000000)] } } }
   -- a crash of the model's own prediction stops the case like the sanitizer stops the driver
   -- `reloadp` is `reload` in a new process: the same decisions
   let norm (l : String) : String := if l.startsWith "reloadp " then "reload " ++ (l.drop 8).toString else l
-  let m := caseLines.foldl (fun m l => if m.out.head? == some "crash sanitizer" then m else sysLine m (norm l)) m0
+  -- `reloadf`: the reference compile in a process of its own, binaries neither read nor written: the model's state is
+  -- the same afterwards, but the dumps and call results become the "last fresh compile" the next binary load is
+  -- predicted from — what the CURRENT sources compile to
+  let step (m : MState) (l : String) : MState :=
+    if l.startsWith "reloadf " then
+      let m' := sysLine { m with noBin := true } ("reload " ++ (l.drop 8).toString)
+      { m' with sys := m.sys, noBin := false }
+    else sysLine m (norm l)
+  let m := caseLines.foldl (fun m l => if m.out.head? == some "crash sanitizer" then m else step m l) m0
   m.out.reverse
 
 /-- branch histogram of the decision model (used by the evidence, not by the check) -/
 def runReasons (body : List String) : List String :=
   let (caseLines, trace) := splitJudge body
-  let m0 : MState := { blocks := splitBlocks trace,
+  let m0 : MState := { blocks := splitBlocks trace, binLines := trace.filter (·.startsWith "bin "),
                        sys := { w := { files := [("simul_efun.c", 2000000000)] } } }
   let norm (l : String) : String := if l.startsWith "reloadp " then "reload " ++ (l.drop 8).toString else l
-  (caseLines.foldl (fun m l => sysLine m (norm l)) m0).reasons
+  (caseLines.foldl (fun m l => if l.startsWith "reloadf " then
+      { m with rno := m.rno + 1, blocks := m.blocks.drop 1 } else sysLine m (norm l)) m0).reasons
 
 def runJudge (body : List String) : List String :=
   let (caseLines, impl) := splitJudge body
